@@ -190,7 +190,8 @@ def validate_traces(tmodule: str, traces: list[dict], *, tag: str, chunk: int = 
     for i in range(0, len(traces), chunk):
         part = traces[i:i + chunk]
         f = d / f"{tag}-{i}.json"
-        f.write_text(json.dumps({"traces": [{"events": t["events"]} for t in part]}))
+        f.write_text(json.dumps({"traces": [{"events": t["events"], "params": t.get("params") or {"none": 0}}
+                                             for t in part]}))
         r = run_tlc(tmodule, cfg, workers=1, timeout=timeout, env={"TRACE_FILE": str(f)},
                     tag=tag, marker="@@V")
         if r.violated:
